@@ -125,7 +125,8 @@ def mk(prop, gens, nq, nt, proj, oracle, theorems, **kw):
 PROPS.update({
     "C01": mk("C01", WELL + [("tdx", lambda r: GB.case_td(r, exact=True), 1)], 240, 12000,
               proj_lines(("op ", "out ", "abort ", "done", "skipped", "fs ", "cl ", "known ", "bad-op")), OB.c01, [],
-              proj_name="C01: returned outputs, abort kinds, resource contents, reference builds"),
+              proj_name="C01: returned outputs, abort kinds, resource contents, reference builds",
+              known_match=known_if_model_agrees("K5", OB.c01)),
     "C02": mk("C02", [("td", GB.case_td, 1), ("tdx", lambda r: (GB.case_td(r, exact=True), dict(exact=True)), 1)], 240, 12000,
               proj_lines(("op ", "ev execute_start", "ev check_", "out ", "abort ", "cl exec", "bad-op")),
               lambda c, io: OB.c02(c, io, exact=c.meta.get("exact", False)), [],
@@ -152,11 +153,12 @@ PROPS.update({
     "C08": mk("C08", [("td", GB.case_td, 2), ("bu", GB.case_bu, 1), ("k2", GB.case_multichecker, 1)], 240, 12000,
               proj_lines(("op ", "st ", "abort ", "bad-op")), OB.c08, [],
               proj_name="C08: store dump after every session", known_match=known_if_model_agrees("K2", OB.c08)),
-    "C09": mk("C09", WELL, 240, 12000,
-              proj_lines(("op ", "ev read_end", "ev write_end", "ev require_end", "ev check_", "abort ", "bad-op")), lambda c, io: [], [],
+    "C09": mk("C09", WELL + [("fail", GB.case_failing_checker, 1)], 240, 12000,
+              proj_lines(("op ", "ev read_end", "ev write_end", "ev require_end", "ev check_", "abort ", "bad-op")), OB.c09, [],
               proj_name="C09: stamps in *_end events and verdicts of every check event"),
     "C16": mk("C16", WELL + [("hid", GB.case_hidden, 1), ("fail", GB.case_failing_checker, 1)], 240, 12000,
-              proj_lines(ALL_BUILD), lambda c, io: [], [], proj_name="C16: complete canonical event stream and outputs"),
+              proj_lines(ALL_BUILD), lambda c, io: [], [], proj_name="C16: complete canonical event stream and outputs",
+              replays=dict(quick=2, thorough=7)),
     "C17": mk("C17", WELL + [("pan", GB.case_panic, 1), ("fail", GB.case_failing_checker, 1)], 240, 12000,
               proj_lines(("op ", "ev ", "tl ", "et ", "composite", "out ", "abort ", "done", "bad-op")), OB.c17, [],
               proj_name="C17: complete event stream, task-side log, EventTracker contents"),
